@@ -248,7 +248,9 @@ pub fn run_prog(cx: &mut CaseCtx, p: &Prog, stride: usize) {
     let mut ks = kinds_seen.clone();
     ks.sort();
     cx.rep.distinct(&(p.kind, ks, total.min(64)));
-    cx.sample(|| prog_json(p, total));
+    if total > 0 {
+        cx.sample(|| prog_json(p, total));
+    }
 }
 
 /// C14 on a table object: determinism, six sinks, u8sum, whole-table raw forms.
